@@ -186,7 +186,18 @@ def run_one(ck, prog):
                 blocks.append(b["id"])
         for bid in blocks:
             fs = [f for f in panics.dominating_facts(c, bid) if f[0] == "cmp" or (f[0] == "truth" and mentions(f[1], c.prov, lambda z: is_kt(z) or is_kh(z)))]
-            exact = len(fs) == 1 and fs[0][0] == "cmp" and fs[0][1] == want and ((is_kt(strip_casts(fs[0][2])) and is_kh(strip_casts(fs[0][3]))) or (is_kh(strip_casts(fs[0][2])) and is_kt(strip_casts(fs[0][3]))))
+            def tail_vs_head(a, b):
+                a, b = strip_casts(a), strip_casts(b)
+                if (is_kt(a) and is_kh(b)) or (is_kh(a) and is_kt(b)):
+                    return True
+                # the wrapping distance compared with zero says the same
+                for d, z in ((a, b), (b, a)):
+                    if const_value(z) == 0 and isinstance(d, tuple) and d[0] == "call" and (d[1] or "").endswith("u32>::wrapping_sub") and len(d[2]) == 2:
+                        x, y = strip_casts(d[2][0]), strip_casts(d[2][1])
+                        if (is_kt(x) and is_kh(y)) or (is_kh(x) and is_kt(y)):
+                            return True
+                return False
+            exact = len(fs) == 1 and fs[0][0] == "cmp" and fs[0][1] == want and tail_vs_head(fs[0][2], fs[0][3])
             ck.ob("C17.2", f"cqe-{kind.lower()}-iff-tail{'==' if want == 'Eq' else '!='}head", exact, fn=c.path, site=c.site(bid),
                   detail=f"get_next_cqe must return {kind} exactly when kernel tail {'==' if want == 'Eq' else '!='} kernel head (free-running indices: equality is the only wrap-safe emptiness test); guarding comparisons found: {[(f[1], show(f[2]), show(f[3])) if f[0] == 'cmp' else ('truth', show(f[1]), f[2]) for f in fs]}")
 
